@@ -217,7 +217,7 @@ var retags = []struct {
 // TLVMenuSize is the number of operators applied to each node by TLVSingles
 // (swap-next only applies to nodes with a following sibling; retag to the
 // node's own tag is skipped).
-const TLVMenuSize = 27
+const TLVMenuSize = 29
 
 // TLVCoreMenuSize is the size of the reduced menu used for pairs.
 const TLVCoreMenuSize = 12
@@ -290,6 +290,16 @@ func mutants(tag, c []byte, level int, emit func(op string, repl []byte) bool) b
 		}
 		if !emit("len-indef", cat(tag, []byte{0x80}, c, []byte{0, 0})) {
 			return false
+		}
+		// declared length kept, content removed: when the node is the last
+		// child, its content lies beyond the end of the parent
+		if len(c) > 0 {
+			if !emit("hollow", cat(tag, Len(len(c)))) {
+				return false
+			}
+			if !emit("hollow-1", cat(tag, []byte{0x01})) {
+				return false
+			}
 		}
 	}
 	if !keep {
